@@ -121,6 +121,10 @@ def check(ctx):
     for i, ln in enumerate(lines):
         if i % 300 == 0: script.append("R")
         script.append(ln)
+        # re-entrant use: the same call once more with an output callback that itself formats numbers through the engine after
+        # every character (a logging sink printing a counter): both outputs must be what they are alone
+        if ctx.rng.random() < 0.12 and len(ln) < 4000:
+            script.append("Pfn" + ln[2:])
     ctx.samples.append({"calls": [script[1], script[len(script) // 2], script[-1]]})
     t = ctx.drive(drv, script, "printf")
     bad = ctx.judge("PrintfTrace", [t], shards=16)
@@ -144,6 +148,6 @@ def replay(ctx, path):
     args = []
     for a in e["args"]:
         args.append("s:%s:1" % fmt(a["s"]) if a["s"] else "i:" + fmt(a["v"]))
-    t = ctx.drive(drv, ["R", "Pf %s %s" % (fmt(e["fmt"]), " ".join(args))], "replay")
+    t = ctx.drive(drv, ["R", "%s %s %s" % ("Pfn" if e.get("nested") else "Pf", fmt(e["fmt"]), " ".join(args))], "replay")
     ctx.report(ctx.judge("PrintfTrace", [t]))
     return ctx.finish(rule="replay of " + path)
